@@ -95,6 +95,12 @@ func (m *model) eval(i int) val {
 		return val{s: fSArr(i, arrS())}
 	case kSMix:
 		return val{s: fSMix(i, arrS(), nv(0).s, nv(1).s)}
+	case kDiv:
+		a, b := nv(0).i, nv(1).i
+		if b == 0 {
+			return val{} // no value: the evaluation panics (see panics)
+		}
+		return val{i: fDiv(i, a, b, a/b)}
 	case kSArr2:
 		more := make([]string, 0, len(n.arr2))
 		for j := range n.arr2 {
@@ -187,6 +193,24 @@ func (m *model) failed(i int) bool {
 		return f
 	}
 	return false
+}
+
+// panics: does a from-scratch evaluation of node i run into a processor panic (a Div
+// whose B reads 0, in what the processors actually read)?
+func (m *model) panics() []bool {
+	out := make([]bool, len(m.nodes))
+	for i := range m.nodes { // sources have smaller indices
+		n := &m.nodes[i]
+		if n.kind == kDiv && m.evalRef(n.named[1], tI).i == 0 && n.named[1] != nil {
+			out[i] = true
+		}
+		for _, r := range m.readRefs(i) {
+			if !r.param && out[r.idx] {
+				out[i] = true
+			}
+		}
+	}
+	return out
 }
 
 // readRefs returns the inputs that the processor of node i reads when it executes
